@@ -88,8 +88,15 @@ def inject(rng):
         sp[rng.choice(["foo", "Value.eq", "keys", "cond", "valuex.eq", "KEY", "lable"])] = 1
         return "parse_part", sp, "unknown part argument"
     if k == 8:
+        op = rng.choice(["and", "or", "xor"])
+        K, X, Vl = {"key.equal_to": "a"}, {"index.equal_to": 0}, {"value.greater_than": 1}
         return "parse_part", rng.choice([{"type": "map_value", "index": {"index.eq": 0}}, {"type": "list_value", "key": {"key.eq": "a"}},
-                                         {"type": "list_value", "key.eq": "a"}, {"type": "map_value", "index.eq": 0}]), "part argument of the wrong kind"
+                                         {"type": "list_value", "key.eq": "a"}, {"type": "map_value", "index.eq": 0},
+                                         # a TREE in a slot must be of the slot's kind throughout, wherever the stranger sits
+                                         {"type": "map_value", "key": {op: [K, Vl]}}, {"type": "map_value", "key": {op: [Vl, K]}},
+                                         {"type": "list_value", "index": {op: [X, Vl]}}, {"type": "map_or_list_value", "key": {op: [K, {op: [K, Vl]}]}},
+                                         {"type": "map_value", "value": {op: [Vl, K]}}, {"type": "list_value", "value": {op: [Vl, {op: [Vl, X]}]}},
+                                         {"type": "map_or_list_value", "index": {op: [X, K]}}]), "part argument of the wrong kind"
     if k == 9:
         return "parse_rule", {"path": ["a"], "condition": {"value.eq": 1}, "cast": rng.choice([{"str": "float"}, {"foo": "int"}, {"int": "str"}, {"str": "STR"}, {"bool": "int"}])}, "unknown cast type"
     if k == 10:
